@@ -224,6 +224,16 @@ def generate():
             "    fn connect_sock(&mut self, addr: SocketAddr) -> Result<(), Error> {\n        self.connects.push(addr);\n        Ok(())\n    }\n"
             "    pub fn route_slice(&mut self, dst: crate::types::Address, data: &mut XData) -> Result<(), Error> {\n        "
             + rt + "\n        Ok(())\n    }\n}\n")
+    # housekeep: what happens to the peers found expired (removal loop behind the expiry loop)
+    hk = extract_item(cloud, r"^    (?:pub )?fn housekeep\s*\(") or ""
+    mm = re.search(r"for addr in del \{\s*info!\(\"Forgot peer", hk)
+    fg = extract_item(hk[mm.start():], r"for addr in del ") if mm else None
+    fg = need(fg, "removal loop `for addr in del` (Forgot peer) in GenericCloud::housekeep", "{ let _ = del; }")
+    out += ("pub struct XReaper {\n    pub peers: crate::vstd::collections::HashMap<SocketAddr, XPeerId>,\n    pub table: XLookup,\n"
+            "    pub connects: smallvec::ivec::IVec<SocketAddr, 2>,\n}\nimpl XReaper {\n"
+            "    fn connect_sock(&mut self, addr: SocketAddr) -> Result<(), Error> {\n        self.connects.push(addr);\n        Ok(())\n    }\n"
+            "    pub fn forget_slice(&mut self, del: smallvec::ivec::IVec<SocketAddr, 2>) -> Result<(), Error> {\n        "
+            + fg + "\n        Ok(())\n    }\n}\n")
     write_if_changed(os.path.join(K.GEN, "extracted.rs"), out)
     # 2b. the cipher-list part of a handshake message: writer arm of InitMsg::write_to and reader arm of InitMsg::read_from,
     #     wrapped as associated functions of InitMsg (included into crypto::init::verif, so Self:: and private items resolve)
